@@ -194,6 +194,9 @@ def one_case(ctx, cid, rng, path, idx):
             df = pd.DataFrame([[r[0], r[1] + shift, r[2], r[3] + shift, k, 1000 + k] for k, r in enumerate(recs)],
                               columns=["chrom1", "pos1", "chrom2", "pos2", "x1", "x2"])
             c.feature("sided-fields")
+            if rng.random() < 0.3 and len(df):
+                df = df.set_axis([k_ % 4 for k_ in range(len(df))], axis=0)        # repeated row labels
+                c.feature("input-frame:non-default-row-labels")
             kw = dict(schema="pairs", is_one_based=one_based, tril_action=tril, sided_fields=("chrom", "pos", "x"))
             if rng.random() < 0.3:
                 # chromosomes already given as integer ids in bin-table order (documented: decode_chroms=False);
@@ -274,6 +277,12 @@ def one_case(ctx, cid, rng, path, idx):
             rows = [(a + shift, b + shift, v, a * 10, b * 10) for (a, b), v in P.items()]
             df = pd.DataFrame(rows, columns=["bin1_id", "bin2_id", "count", "s1", "s2"])
             df = df.iloc[rng.permutation(len(df))].reset_index(drop=True)
+            lab = int(rng.integers(4))
+            if lab and len(df):
+                # row labels carry no meaning: repeated labels (as after pd.concat of two tables), shuffled, strings
+                df = df.set_axis({1: [k_ % 3 for k_ in range(len(df))], 2: rng.permutation(len(df)) + 2,
+                                  3: [f"r{k_}" for k_ in range(len(df))]}[lab], axis=0)
+                c.feature("input-frame:non-default-row-labels")
             out = sanitize_pixels(bins, is_one_based=one_based, tril_action=tril, sided_fields=("s",))(df.copy())
             c.feature("sided-fields")
             wantp = {}
